@@ -128,7 +128,8 @@ def _(ctx):
         return
     sym, (Mhh, MAh, MHm, ew1, ew2, MW2, MZ2), _ = ok_paths[0]
     # domain side conditions first (sqrt/division/asin arguments for ALL admissible inputs, m12^2 of either sign): they are the cheapest refutations
-    ctx.sides('build', sym, pre)
+    if not ctx.sides('build', sym, pre):
+        return      # a domain violation is already a failed goal: the expensive nonlinear goals below would only run into the time budget on such a tree
     f = b.f
     tb, sba = f['tan_beta'], f['sin_beta_minus_alpha']
     # alpha as the code computes it
